@@ -1255,11 +1255,9 @@ impl<'a> FieldEntry<'a> {
         }
     }
     fn make_ident(&self, prefix: &str) -> Ident {
-        if let Some(ident) = &self.field.ident {
-            format_ident!("{}_{}", prefix, ident)
-        } else {
-            format_ident!("{}_{}", prefix, self.index)
-        }
+        // by position, as the standard derives do: a name built from the field's own name draws
+        // `non_snake_case` for fields such as `_marker` or `fooBar`
+        format_ident!("{}_{}", prefix, self.index)
     }
     fn push_bounds_to(&self, use_bounds: bool, kind: DeriveItemKind, wcb: &mut WhereClauseBuilder) {
         if self.hattrs.push_bounds_to(use_bounds, kind, wcb) {
